@@ -435,3 +435,39 @@ func TestLargeRepair(t *testing.T) {
 		ev.Sample(map[string]any{"keys": n, "nodes": len(w.Reachable), "removed": len(removed), "donor": mode, "version": version})
 	})
 }
+
+// A leaf that carries a value of exactly the largest accepted size is among the absent nodes; both repair paths must
+// bring it back.
+func TestRepairWithValueAtTheSizeLimit(t *testing.T) {
+	ev.Guard(t, "TestRepairWithValueAtTheSizeLimit", func() {
+		full := util.NewMemoryNodeDB()
+		mpt := mptkit.NewTrie(full, 1, nil)
+		model := map[string][]byte{}
+		big := bytes.Repeat([]byte{0x3a, 0x01, 0x00, 0x7f}, util.MPTMaxAllowableNodeSize/4)
+		for i, p := range []string{"07f5", "07f6", "0a", "0a11", "ff00aa", "12"} {
+			v := []byte{byte(i), 0x3a}
+			if p == "07f5" {
+				v = big
+			}
+			if _, err := mpt.Insert(util.Path(p), mptkit.Val(v)); err != nil {
+				t.Fatalf("HARNESS: insert %q: %v", p, err)
+			}
+			model[p] = v
+		}
+		root := append([]byte(nil), mpt.GetRoot()...)
+		w := refmpt.WalkFrom(root, mptkit.GetterOf(full), true)
+		removed := map[string]bool{}
+		for k := range w.Reachable {
+			if k != string(root) {
+				removed[k] = true
+			}
+		}
+		for i, donorMode := range []string{"exact+MergeState", "superset+MergeState", "exact", "superset"} {
+			desc := func() string {
+				return fmt.Sprintf("6 keys, one value of %d bytes, all %d non-root nodes removed, donor=%s", len(big), len(removed), donorMode)
+			}
+			runScenarioW(t, full, root, model, removed, int64(1+i%2), donorMode, "cold", desc)
+			ev.Case("size-limit-repair/"+donorMode, true, "value-at-the-size-limit")
+		}
+	})
+}
